@@ -8,7 +8,9 @@ A case (plain JSON):
     op = {'k': kind, 'i': int, 'j': int, 'attr': 'a'|'b'|'h'|'c', 'v': int, 'w': int|None, 'f': bool}
 
 Entities (all six hooks defined on every class; every hook writes an event to the log before running its body):
-    P   explicit pk, a, b, h, kids=Set(K) [K.parent Required -> cascade delete], alts=Set(K) [K.alt Optional], tags=Set(T) m2m
+    P   explicit pk, a, b, h, kids=Set(K) [K.parent Required -> cascade delete], alts=Set(K) [K.alt Optional], tags=Set(T) m2m,
+        up=Optional(P) / downs=Set(P) (self-reference; the harness only lets up point to an older P, so chains
+        K -> P -> P -> P ..., trees and diamonds of unsaved principals exist and are acyclic)
     K   auto pk, tag (unique handle chosen by the harness, never changed), a, b, h, parent, alt;  K2(K) adds c
     T   explicit pk, a, h, owners=Set(P)
 
@@ -120,7 +122,7 @@ def parse_write(sql, params, lastrowid):
 # ------------------------------------------------------------------------------------------------
 class Model(object):
     def __init__(self):
-        self.P = {}      # pk  -> {'a','b','h'}
+        self.P = {}      # pk  -> {'a','b','h','up'}
         self.T = {}      # pk  -> {'a','h'}
         self.K = {}      # tag -> {'cls','a','b','h','c','parent','alt'}
         self.links = set()   # (p pk, t pk)
@@ -152,6 +154,8 @@ class Model(object):
             for h in gone[1:]: del self.K[h[1]]
             for row in self.K.values():
                 if row['alt'] == key: row['alt'] = None
+            for row in self.P.values():
+                if row['up'] == key: row['up'] = None
             self.links = set(l for l in self.links if l[0] != key)
             del self.P[key]
         elif cls == 'K':
@@ -163,7 +167,7 @@ class Model(object):
 
     def tables(self):
         return {
-            'p': sorted([pk, r['a'], r['b'], r['h']] for pk, r in self.P.items()),
+            'p': sorted([pk, r['a'], r['b'], r['h'], r['up']] for pk, r in self.P.items()),
             't': sorted([pk, r['a'], r['h']] for pk, r in self.T.items()),
             'k': sorted([tag, r['cls'], r['a'], r['b'], r['h'], r['c'], r['parent'], r['alt']] for tag, r in self.K.items()),
             'p_t': sorted([a, b] for a, b in self.links),
@@ -172,7 +176,7 @@ class Model(object):
 
 def read_tables(cursor):
     out = {}
-    out['p'] = sorted(list(r) for r in cursor.execute('SELECT "id", "a", "b", "h" FROM "p"').fetchall())
+    out['p'] = sorted(list(r) for r in cursor.execute('SELECT "id", "a", "b", "h", "up" FROM "p"').fetchall())
     out['t'] = sorted(list(r) for r in cursor.execute('SELECT "id", "a", "h" FROM "t"').fetchall())
     out['k'] = sorted(list(r) for r in cursor.execute(
         'SELECT "tag", "classtype", "a", "b", "h", "c", "parent", "alt" FROM "k"').fetchall())
@@ -233,6 +237,7 @@ def define_entities(db):
     P = type('P', (db.Entity,), dict(hooks,
         _table_='p', id=PrimaryKey(int), a=Required(int), b=Optional(int), h=Optional(int),
         kids=Set('K', reverse='parent'), alts=Set('K', reverse='alt'),
+        up=Optional('P', reverse='downs', column='up'), downs=Set('P', reverse='up'),
         tags=Set('T', table='p_t', column='t_id')))
     K = type('K', (db.Entity,), dict(hooks,
         _table_='k', id=PrimaryKey(int, auto=True), tag=Required(int, unique=True),
@@ -388,12 +393,15 @@ class Runner(object):
                 snap['parent'] = None if par is None else par.get_pk()
                 snap['alt'] = None if alt is None else alt.get_pk()
             if cls == 'K2': snap['c'] = obj.c
+            if cls == 'P':
+                up = obj.up
+                snap['up'] = None if up is None else up.get_pk()
             ev['snap'] = snap
             return 'read'
         if body == 'readcoll':
             if deleting: return None        # collections of an object marked for deletion are not readable
             if cls == 'P':
-                ev['snap'] = {'kids': len(obj.kids), 'tags': sorted(t.id for t in obj.tags)}
+                ev['snap'] = {'kids': len(obj.kids), 'tags': sorted(t.id for t in obj.tags), 'downs': len(obj.downs)}
             elif cls == 'T':
                 ev['snap'] = {'owners': sorted(p.id for p in obj.owners)}
             else:
@@ -444,8 +452,10 @@ class Runner(object):
             if which == 2:
                 pk, val = self.new_id(), self.new_val()
                 self.log({'t': 'create', 'by': name, 'obj': ['P', pk]})
-                self.registry[('P', pk)] = E['P'](id=pk, a=val)
-                self.cur.P[pk] = {'a': val, 'b': None, 'h': None}
+                up = self.pick('P', arg // 3) if (arg // 3) % 2 else None     # an older P: no cycle possible
+                if up is not None: self.registry[('P', pk)] = E['P'](id=pk, a=val, up=self.obj(up))
+                else: self.registry[('P', pk)] = E['P'](id=pk, a=val)
+                self.cur.P[pk] = {'a': val, 'b': None, 'h': None, 'up': up and up[1]}
                 if name.startswith('after_'): self.after_effects.append(('create', ('P', pk)))
                 return 'create_p'
             pk, val = self.new_id(), self.new_val()
@@ -493,19 +503,36 @@ class Runner(object):
         d = diff_between(self.required_model().tables(), self.cur.tables(), got)
         self.log({'t': 'dbcheck', 'view': 'flushed', 'when': when, 'diff': d})
 
-    def check_row(self, handle, when):
-        """after obj.flush(): only the row of the flushed object is promised (its pending changes and what its own
-        before-hook changed); read through Pony's connection with a plain cursor"""
-        if not self.rawconns: return
+    def unsaved_depth(self, handle):
+        """length of the longest chain of not yet inserted objects reachable from `handle` through to-one references
+        (K.parent, K.alt, P.up); measured on the reference model and the statement log (for the coverage classes)"""
+        def refs(h):
+            row = self.cur.row(h)
+            keys = [row.get('parent'), row.get('alt')] if h[0] == 'K' else [row.get('up')] if h[0] == 'P' else []
+            return [('P', k) for k in keys if k is not None and ('P', k) not in self.inserted and k in self.cur.P]
+        def depth(h, seen):
+            return max([0] + [1 + depth(r, seen + (r,)) for r in refs(h) if r not in seen])
+        if not self.cur.is_live(handle): return 0
+        return depth(handle, (handle,))
+
+    def check_rows(self, begin, when):
+        """after obj.flush(): every object that got a statement during the call (the flushed object and the unsaved
+        objects it depends on, at any distance) must be stored with everything written to it before that statement,
+        in particular what its own before-hook changed.  Objects written to again after their statement (by a later hook
+        of the same call) are pending again and are not compared.  Plain cursor on Pony's connection."""
+        handles = sorted(h for h, pos in self.last_stmt.items()
+                         if pos >= begin and h[1] is not None and self.last_write.get(h, -1) < pos)
+        if not handles or not self.rawconns: return
         try:
             c = sqlite3.Cursor(self.rawconns[-1])
             try: got = read_tables(c)
             finally: c.close()
         except sqlite3.ProgrammingError:
             return
-        t = {'P': 'p', 'K': 'k', 'T': 't'}[handle[0]]
-        only = lambda tables: dict((name, [r for r in rows if name == t and r[0] == handle[1]]) for name, rows in tables.items())
-        d = diff_between(only(self.required_model().tables()), only(self.cur.tables()), only(got))
+        tname = {'P': 'p', 'K': 'k', 'T': 't'}
+        wanted = set((tname[h[0]], h[1]) for h in handles)
+        only = lambda tables: dict((name, [r for r in rows if (name, r[0]) in wanted]) for name, rows in tables.items())
+        d = diff_tables(only(self.cur.tables()), only(got))
         self.log({'t': 'dbcheck', 'view': 'flushed', 'when': when, 'diff': d})
 
     def check_committed(self, when):
@@ -528,9 +555,12 @@ class Runner(object):
         self.log(marker)
         done = True
         if kind == 'new_p':
+            up = self.pick('P', j) if f else None          # only an older P: reference chains stay acyclic
             pk = self.new_id()
-            self.registry[('P', pk)] = E['P'](id=pk, a=v, b=w)
-            cur.P[pk] = {'a': v, 'b': w, 'h': None}
+            if up is not None: self.registry[('P', pk)] = E['P'](id=pk, a=v, b=w, up=self.obj(up))
+            else: self.registry[('P', pk)] = E['P'](id=pk, a=v, b=w)
+            cur.P[pk] = {'a': v, 'b': w, 'h': None, 'up': up and up[1]}
+            if up is not None: self.stats.add('p_chain')
         elif kind == 'new_t':
             pk = self.new_id()
             self.registry[('T', pk)] = E['T'](id=pk, a=v)
@@ -634,14 +664,30 @@ class Runner(object):
             if f: self.db.flush()
             else: orm.flush()
             self.check_flushed('flush s%d.%d' % (si, oi))
+        elif kind == 'up':
+            p = self.pick('P', i)
+            older = [h for h in cur.live('P') if p is not None and h[1] < p[1]]
+            if p is None or (not f and not older): done = False
+            else:
+                target = None if f else older[j % len(older)]
+                self.obj(p).up = None if target is None else self.obj(target)
+                cur.P[p[1]]['up'] = target and target[1]
+                self.touch(p)
+                if target is not None: self.stats.add('p_chain')
         elif kind == 'oflush':
-            h = self.pick(None, i)
+            # attr selects the class of the flushed object: 'a' any, 'b' P, 'c' K/K2, 'h' T
+            h = self.pick({'a': None, 'b': 'P', 'c': 'K', 'h': 'T'}[attr], i)
             if h is None: done = False
             else:
                 marker['target'] = list(h)
+                depth = self.unsaved_depth(h)
+                begin = len(self.events)
                 self.obj(h).flush()
                 self.stats.add('obj_flush')
-                self.check_row(h, 'obj.flush() of %s:%s s%d.%d' % (h[0], h[1], si, oi))
+                if depth >= 1: self.stats.add('obj_flush_unsaved_principal')
+                if depth >= 2: self.stats.add('obj_flush_unsaved_chain_2plus')
+                if depth >= 3: self.stats.add('obj_flush_unsaved_chain_3plus')
+                self.check_rows(begin, 'obj.flush() of %s:%s s%d.%d' % (h[0], h[1], si, oi))
         elif kind == 'query':
             which = i % 3
             if which == 0: orm.select(k for k in E['K'])[:]
